@@ -45,15 +45,17 @@ def any_(l):
 class WBEnv(Mon):
     """masters/slaves environment + observational monitors; dut built by subclass hook"""
 
-    def __init__(self, kind, M, S, amap, register, dw=8, aw=6, timeout=None):
+    def __init__(self, kind, M, S, amap, register, dw=8, aw=6, timeout=None, maws=None):
         from litex.soc.interconnect import wishbone
         from litex.soc.integration.soc import SoCRegion
         self.M, self.S = M, S
         shift = {8: 0, 16: 1, 32: 2}[dw]
-        self.masters = ms = [wishbone.Interface(data_width=dw, adr_width=aw) for _ in range(M)]
+        # maws: per-master address widths (a narrow master first: the shared bus must be as wide as the widest master)
+        self.masters = ms = [wishbone.Interface(data_width=dw, adr_width=(maws[i] if maws else aw)) for i in range(M)]
         self.slaves = ss = [wishbone.Interface(data_width=dw, adr_width=aw) for _ in range(S)]
         regs = [SoCRegion(origin=o << shift, size=sz << shift) for (o, sz) in amap[:S]]
-        decs = [(regs[i].decoder(ms[0]), ss[i]) for i in range(S)]
+        widest = max(ms, key=lambda m_: m_.adr_width)
+        decs = [(regs[i].decoder(widest), ss[i]) for i in range(S)]
         if kind == "shared":
             self.submodules.dut = wishbone.InterconnectShared(ms, decs, register=register, timeout_cycles=timeout)
         elif kind == "crossbar":
@@ -99,7 +101,7 @@ class WBEnv(Mon):
         bad_present = 0
         bad_window = 0
         for j, s in enumerate(ss):
-            src = any_([m.cyc & match(j, m.adr) & (Cat(s.adr, s.we, s.sel, s.dat_w, s.stb) == Cat(m.adr, m.we, m.sel, m.dat_w, m.stb)) for m in ms])
+            src = any_([m.cyc & match(j, m.adr) & (s.adr == m.adr) & (Cat(s.we, s.sel, s.dat_w, s.stb) == Cat(m.we, m.sel, m.dat_w, m.stb)) for m in ms])
             bad_present = bad_present | (s.cyc & ~src)
             bad_window = bad_window | (s.cyc & ~match(j, s.adr))
         # --- O3: terminations only to a requesting master, from the slave its address selects, with that slave's data
@@ -198,9 +200,9 @@ class WBEnv(Mon):
             self.showl += [s.cyc, s.stb, s.adr, s.ack, s.dat_r]
 
 
-def build(kind, M, S, mapname, register, K, dw=8, timeout=None):
-    top = WBEnv(kind, M, S, MAPS[mapname], register, dw=dw, timeout=timeout)
-    name = "wb_%s_%dx%d_%s%s_d%d" % (kind, M, S, mapname, "_reg" if register else "", dw)
+def build(kind, M, S, mapname, register, K, dw=8, timeout=None, maws=None):
+    top = WBEnv(kind, M, S, MAPS[mapname], register, dw=dw, timeout=timeout, maws=maws)
+    name = "wb_%s_%dx%d_%s%s_d%d%s" % (kind, M, S, mapname, "_reg" if register else "", dw, "" if not maws else "_aw" + "_".join(map(str, maws)))
     assume = [top.asm, top.asm_idx]
     if timeout is not None:
         # a configured time-out must be invisible when every slave answers in time and no unmapped address is used
@@ -248,6 +250,7 @@ def jobs(tier):
             js.append(Job("wb_%s_%dx%d_%s%s_d%d" % (kind, m, s, mapname, "_reg" if reg else "", dw), build,
                           dict(kind=kind, M=m, S=s, mapname=mapname, register=reg, K=K, dw=dw), cost=m * s))
     js.append(Job("wb_shared_2x2_adjacent_d8_timeout4_fastslaves", build, dict(kind="shared", M=2, S=2, mapname="adjacent", register=False, K=K, timeout=4), cost=4))
+    js.append(Job("wb_shared_2x2_adjacent_d8_aw4_6", build, dict(kind="shared", M=2, S=2, mapname="adjacent", register=False, K=K, maws=(4, 6)), cost=4))
     js.append(Job("wb_p2p_1x1_adjacent_d8", build, dict(kind="p2p", M=1, S=1, mapname="adjacent", register=False, K=8), cost=1))
     return js
 
